@@ -122,38 +122,49 @@ fn inner_alphabet(w: i32, h: i32, quick: bool) -> Vec<Op> {
     v
 }
 
-/// which pushes are open inside the outer layer (for well-nestedness and auto-closing)
-fn open_inside(seq: &[Op]) -> Vec<bool> {
-    // true = layer, false = clip
-    let mut st = Vec::new();
-    for op in seq {
+/// raqote keeps two independent stacks; (clips on the clip stack, layers opened inside the outer layer)
+fn depths(pre: &[Op], seq: &[Op]) -> (i32, i32) {
+    let mut c = 0;
+    let mut l = 0;
+    for op in pre.iter().chain(seq.iter()) {
         match op {
-            Op::PushLayer(..) => st.push(true),
-            Op::PushClip(_) | Op::PushClipRect(..) => st.push(false),
-            Op::PopLayer | Op::PopClip => {
-                st.pop();
-            }
+            Op::PushClip(_) | Op::PushClipRect(..) => c += 1,
+            Op::PopClip => c -= 1,
             _ => {}
         }
     }
-    st
+    for op in seq {
+        match op {
+            Op::PushLayer(..) => l += 1,
+            Op::PopLayer => l -= 1,
+            _ => {}
+        }
+    }
+    (c, l)
 }
 
-fn enabled(seq: &[Op], op: &Op) -> bool {
-    let st = open_inside(seq);
+fn enabled(pre: &[Op], seq: &[Op], op: &Op) -> bool {
+    let (c, l) = depths(pre, seq);
     match op {
-        Op::PopLayer => st.last() == Some(&true),
-        Op::PopClip => st.last() == Some(&false),
-        Op::PushLayer(..) => st.iter().filter(|l| **l).count() < 2,
-        Op::PushClip(_) | Op::PushClipRect(..) => st.len() < 3,
+        Op::PopLayer => l > 0,
+        // any clip may be popped, also one that was pushed before the layer
+        Op::PopClip => c > 0,
+        Op::PushLayer(..) => l < 2,
+        Op::PushClip(_) | Op::PushClipRect(..) => c < 4,
         _ => true,
     }
 }
 
-fn close_all(seq: &[Op]) -> Vec<Op> {
+/// pops that balance the scene: inner layers, the outer layer, then whatever clips are left
+fn close_all(pre: &[Op], seq: &[Op]) -> Vec<Op> {
+    let (c, l) = depths(pre, seq);
     let mut out = Vec::new();
-    for l in open_inside(seq).iter().rev() {
-        out.push(if *l { Op::PopLayer } else { Op::PopClip });
+    for _ in 0..l {
+        out.push(Op::PopLayer);
+    }
+    out.push(Op::PopLayer);
+    for _ in 0..c {
+        out.push(Op::PopClip);
     }
     out
 }
@@ -172,10 +183,9 @@ fn run_space(run: &Run, name: &str, w: i32, h: i32, outer: &[(f32, BlendMode)], 
                 let mut ops: Vec<Op> = pre.to_vec();
                 ops.push(Op::PushLayer(o, b));
                 ops.extend(seq.iter().cloned());
-                ops.extend(close_all(seq));
-                ops.push(Op::PopLayer);
-                // clips pushed outside stay until after the pop; a transform set inside persists
-                ops.extend(suf.iter().cloned());
+                // a transform set inside persists; clips still on the stack are popped after the layer
+                ops.extend(close_all(pre, seq));
+                let _ = suf;
                 let scene = Scene { w, h, dst: dst.clone(), ops };
                 l.transitions += scene.ops.len() as u64;
                 l.traces += 1;
@@ -201,7 +211,7 @@ fn run_space(run: &Run, name: &str, w: i32, h: i32, outer: &[(f32, BlendMode)], 
                 return;
             }
             for op in alpha {
-                if !enabled(seq, op) {
+                if !enabled(pre, seq, op) {
                     continue;
                 }
                 seq.push(op.clone());
@@ -214,7 +224,7 @@ fn run_space(run: &Run, name: &str, w: i32, h: i32, outer: &[(f32, BlendMode)], 
             // the empty inner sequence, accounted once per (outer, context)
             rec(run, s, l, w, h, pre, suf, o, b, alpha, &mut seq, 0, dsts);
         }
-        if depth == 0 || !enabled(&seq, &alpha[a0]) {
+        if depth == 0 || !enabled(pre, &seq, &alpha[a0]) {
             return;
         }
         seq.push(alpha[a0].clone());
